@@ -410,6 +410,7 @@ func useAfterReleaseRule(c *Ctx, p *core.Prog, fns []*ssa.Function, rule string,
 	fired := false
 	for _, fn := range fns {
 		seq := map[string]int{}
+		drs := deferredReleases(fn, ri)
 		for _, b := range fn.Blocks {
 			for idx, in := range b.Instrs {
 				ci, ok := in.(ssa.CallInstruction)
@@ -467,6 +468,31 @@ func useAfterReleaseRule(c *Ctx, p *core.Prog, fns []*ssa.Function, rule string,
 						r.OK(rule, key, p.Pos(in.Pos()), "deferred release; released object is not returned")
 					}
 					continue
+				}
+				// double release: the same variable is also released by a deferred closure
+				if cell := cellOf(rel); cell != nil {
+					for _, dr := range drs {
+						if dr.cell != cell {
+							continue
+						}
+						dbl := false
+						if dr.flag == nil {
+							dbl = true
+						} else {
+							stops := map[ssa.Instruction]bool{}
+							for _, st := range storesConst(fn, dr.flag, !dr.runsWhen) {
+								stops[st] = true
+							}
+							dbl = reachesReturnWithout(in, stops)
+						}
+						if dbl {
+							if control {
+								fired = true
+							} else {
+								r.Violate(rule, key+"|double", p.Pos(in.Pos()), "the object released here is released again by the deferred "+dr.what+" registered at "+p.Pos(dr.deferIn.Pos())+" on a path that does not disable it: the same object enters the pool twice and two later callers share it")
+							}
+						}
+					}
 				}
 				// uses after the call
 				use := useAfter(fn, b, idx, rel)
@@ -583,6 +609,149 @@ func useAfter(fn *ssa.Function, b *ssa.BasicBlock, idx int, rel ssa.Value) ssa.I
 }
 
 func itoa(n int) string { return sprintf("%d", n) }
+
+// cellOf: if v is a load of a local cell (captured variable), return the cell.
+func cellOf(v ssa.Value) *ssa.Alloc {
+	if u, ok := v.(*ssa.UnOp); ok && u.Op == token.MUL {
+		if a, ok := u.X.(*ssa.Alloc); ok {
+			return a
+		}
+	}
+	return nil
+}
+
+// deferredRelease describes `defer func() { if !flag { Release(x) } }()`.
+type deferredRelease struct {
+	deferIn  *ssa.Defer
+	cell     *ssa.Alloc // the captured variable holding the released object
+	what     string
+	flag     *ssa.Alloc // captured bool guarding the release, or nil when unconditional
+	runsWhen bool       // the release runs when *flag == runsWhen
+}
+
+// deferredReleases finds deferred closures of fn that release a captured variable.
+func deferredReleases(fn *ssa.Function, ri *releaseInfo) []deferredRelease {
+	var out []deferredRelease
+	for _, b := range fn.Blocks {
+		for _, in := range b.Instrs {
+			d, ok := in.(*ssa.Defer)
+			if !ok {
+				continue
+			}
+			mc, ok := d.Call.Value.(*ssa.MakeClosure)
+			if !ok {
+				continue
+			}
+			cl, _ := mc.Fn.(*ssa.Function)
+			if cl == nil {
+				continue
+			}
+			bind := func(fv ssa.Value) *ssa.Alloc {
+				for i, f := range cl.FreeVars {
+					if ssa.Value(f) == fv && i < len(mc.Bindings) {
+						a, _ := mc.Bindings[i].(*ssa.Alloc)
+						return a
+					}
+				}
+				return nil
+			}
+			for _, cb := range cl.Blocks {
+				for _, ci := range cb.Instrs {
+					call, ok := ci.(*ssa.Call)
+					if !ok {
+						continue
+					}
+					var rel ssa.Value
+					what := ""
+					if isPoolMethod(&call.Call, "Put") && len(call.Call.Args) == 2 {
+						rel, what = call.Call.Args[1], "Pool.Put"
+						if mi, ok := rel.(*ssa.MakeInterface); ok {
+							rel = mi.X
+						}
+					} else if callee := call.Call.StaticCallee(); callee != nil {
+						for j, a := range call.Call.Args {
+							if ri.releases(callee, j) {
+								rel, what = a, core.FnName(callee)
+							}
+						}
+					}
+					if rel == nil {
+						continue
+					}
+					u, ok := rel.(*ssa.UnOp)
+					if !ok {
+						continue
+					}
+					cell := bind(u.X)
+					if cell == nil {
+						continue
+					}
+					dr := deferredRelease{deferIn: d, cell: cell, what: what}
+					for _, cd := range core.ControlDeps(cb) {
+						cond, neg := stripNot(cd.If.Cond)
+						if lu, ok := cond.(*ssa.UnOp); ok && lu.Op == token.MUL {
+							if f := bind(lu.X); f != nil {
+								dr.flag = f
+								// release block is on successor cd.Succ; cond true means *flag != neg
+								dr.runsWhen = (cd.Succ == 0) != neg
+							}
+						}
+					}
+					out = append(out, dr)
+				}
+			}
+		}
+	}
+	return out
+}
+
+// afterStore: blocks (and positions) reachable after a store of constant val into cell.
+func storesConst(fn *ssa.Function, cell *ssa.Alloc, val bool) []*ssa.Store {
+	var out []*ssa.Store
+	for _, b := range fn.Blocks {
+		for _, in := range b.Instrs {
+			if st, ok := in.(*ssa.Store); ok && st.Addr == ssa.Value(cell) {
+				if c, ok := st.Val.(*ssa.Const); ok && c.Value != nil && (c.Value.String() == "true") == val {
+					out = append(out, st)
+				}
+			}
+		}
+	}
+	return out
+}
+
+// reachesReturnWithout: from instruction `from`, can a Return be reached without passing any of the stops?
+func reachesReturnWithout(from ssa.Instruction, stops map[ssa.Instruction]bool) bool {
+	b := from.Block()
+	start := 0
+	for i, in := range b.Instrs {
+		if in == from {
+			start = i + 1
+		}
+	}
+	seen := map[*ssa.BasicBlock]bool{}
+	var walk func(blk *ssa.BasicBlock, i0 int) bool
+	walk = func(blk *ssa.BasicBlock, i0 int) bool {
+		for i := i0; i < len(blk.Instrs); i++ {
+			if stops[blk.Instrs[i]] {
+				return false
+			}
+			if _, ok := blk.Instrs[i].(*ssa.Return); ok {
+				return true
+			}
+		}
+		for _, s := range blk.Succs {
+			if !seen[s] {
+				seen[s] = true
+				if walk(s, 0) {
+					return true
+				}
+			}
+		}
+		return false
+	}
+	return walk(b, start)
+}
 
 func runC09(c *Ctx) {
 	r, p := c.R, c.P
